@@ -131,11 +131,19 @@ class C08(Check):
 
     def accept_case(self, c):
         import fake_net
+        if c["via"] == "reader" and not hasattr(S, "_netascii_reader_function"):
+            # the reader cannot be called directly on this tree (private function renamed or restructured): the case
+            # goes through a transfer instead, which needs a block size a client can ask for
+            if not (8 <= c["bs"] <= 65464):
+                return False
         return fake_net.can_drive(255, 255, 1, c.get("max_bs", 65464), 0)
 
     def impl(self, c):
         if c["via"] == "reader":
-            return (direct_blocks(c["content"], c["chunks"], c["bs"]), False)
+            if hasattr(S, "_netascii_reader_function"):
+                return (direct_blocks(c["content"], c["chunks"], c["bs"]), False)
+            blocks, _tsize = transfer_blocks(dict(c, via="transfer"))
+            return (blocks, False)
         return transfer_blocks(c)
 
     def line(self, c, obs):
